@@ -125,13 +125,9 @@ def equal : YangRange → YangRange → Bool
 
 /-- Go: `for r[ri].Max.Less(ss.Min) { ri++; if ri == len(r) { return false } }` on the suffix
 `cur :: rest = r[ri:]`; `none` is `return false`. -/
-def advance (ssMin : Number) : YRange → List YRange → Option (YRange × List YRange)
-  | cur, rest =>
-    if less cur.max ssMin then
-      match rest with
-      | [] => none
-      | n :: rest' => advance ssMin n rest'
-    else some (cur, rest)
+def advance (ssMin : Number) (cur : YRange) : List YRange → Option (YRange × List YRange)
+  | [] => if less cur.max ssMin then none else some (cur, [])
+  | n :: rest' => if less cur.max ssMin then advance ssMin n rest' else some (cur, n :: rest')
 
 /-- the `for _, ss := range s` loop of `Contains` with `cur :: rest = r[ri:]` -/
 def containsLoop : YRange → List YRange → List YRange → Bool
